@@ -51,10 +51,13 @@ func runC16(c *wk.Ctx) {
 		if len(f.B) > len(buf) {
 			continue
 		}
-		ref := refdec.Decode(f.B)
-		if ref.Err {
-			continue
+		if i%4 == 3 {
+			f = gen.Mutate(r, f, "truncate") // cut short: whatever Parse still accepts must keep its views inside the frame
+			if len(f.B) == 0 {
+				continue
+			}
 		}
+		ref := refdec.Decode(f.B)
 		if inSess++; inSess > 400 { // keep the table small (duplicate-IP path prints the whole table)
 			go s.Close()
 			s, _ = mon.NewSession(mon.NewRecorder(1), mon.DefaultNIC(), 0, 0, 0)
@@ -72,6 +75,24 @@ func runC16(c *wk.Ctx) {
 		frame, err := s.Parse(b) // warm-up: creates the host if the source is new
 		if err != nil {
 			continue // acceptance differences are C02's business
+		}
+		if ref.Err {
+			// the reference decoder rejects this frame (acceptance differences are C02's business): if Parse accepts it, the
+			// containment rule still applies to every view it hands out
+			for _, v := range []struct {
+				name string
+				b    []byte
+			}{{"Ether", frame.Ether()}, {"IP4", frame.IP4()}, {"IP6", frame.IP6()}, {"UDP", frame.UDP()}, {"TCP", frame.TCP()}, {"Payload", frame.Payload()}} {
+				if len(v.b) == 0 {
+					continue
+				}
+				off := int(uintptr(ptr(v.b)) - uintptr(ptr(b)))
+				if off < 0 || off+len(v.b) > len(b) {
+					c.Viol("zerocopy:"+v.name+":beyond-frame", fmt.Sprintf("%s spans [%d:%d], the frame has %d bytes (frame cut short, receive buffer has spare capacity)", v.name, off, off+len(v.b), len(b)), cs())
+				}
+				c.Obs("views_checked_on_rejected_frames", 1)
+			}
+			continue
 		}
 		// --- zero copy: every view aliases the buffer at the reference offset and stays inside the frame
 		type vw struct {
